@@ -20,7 +20,7 @@ RULE = (
     "constructor arguments (user type > Fraction > Decimal > float > int), result type preservation and "
     "exact equality with independently computed formulas (float: within 4 ulp of the term magnitudes); "
     "(iii) int/float/Fraction vectors of magnitude 1e-6..1e6: |normalized|=1 (1e-12), same direction, length "
-    "vs exact sqrt (1e-12 rel), angle in [0,pi] equal to the atan2 reference (1e-7), zero() and unit vectors. "
+    "vs exact sqrt (1e-12 rel), angle in [0,pi] equal to the atan2 reference (1e-7), also after a coordinate of an already measured vector was set with v[i]=x; zero() and unit vectors. "
     "non-trivial = non-symmetric inputs (mixed signs or mixed types); distinct = distinct inputs."
 )
 ASSUMPTIONS = [
@@ -351,13 +351,27 @@ def check_arith(case, ctx, G):
 
 
 def check_norm(case, ctx, G):
-    _k, tn, V_, W_ = case
-    cls = "norm/%s" % tn
+    _k, tn, V_, W_ = case[:4]
+    edit = case[4] if len(case) > 4 else None
+    cls = "norm/%s%s" % (tn, "/after-setitem" if edit else "")
     ctx.cls(cls)
     ctx.nontrivial(case)
     ctx.sample(cls, case)
-    facts = {"mode": "norm", "type": tn}
-    v = G.Vector(*[to_type(tn, q) for q in V_])
+    facts = {"mode": "norm", "type": tn, "edited": bool(edit)}
+    if edit:
+        # the vector is first built with another coordinate, measured, then edited in place with
+        # v[i] = x (documented coordinate setting); every later answer must be that of the edited vector
+        i, old = edit
+        V0 = list(V_)
+        V0[i] = old
+        v = G.Vector(*[to_type(tn, q) for q in V0])
+        try:
+            v.length(), abs(v), v.normalized(), v.angle(G.Vector(1, 2, 3)), hash(v)
+        except Exception:
+            pass
+        v[i] = to_type(tn, V_[i])
+    else:
+        v = G.Vector(*[to_type(tn, q) for q in V_])
     w = G.Vector(*[to_type(tn, q) for q in W_])
     Vq = [F(to_type(tn, q)) for q in V_]
     Wq = [F(to_type(tn, q)) for q in W_]
@@ -450,7 +464,7 @@ def gen_arith(draw):
 
 
 @st.composite
-def gen_norm(draw):
+def gen_norm(draw, edit=False):
     tn = draw(st.sampled_from(["int", "float", "frac"]))
     e = draw(st.integers(-6, 6))
 
@@ -474,6 +488,11 @@ def gen_norm(draw):
         if tn != "int":
             W_ = tuple(x * F(10) ** (-e) for x in W_)
     assume(any(W_))
+    if edit:
+        i = draw(st.integers(0, 2))
+        old = comp()
+        assume(any(V_[j] if j != i else old for j in range(3)))
+        return ("NORM", tn, V_, tuple(W_), (i, old))
     return ("NORM", tn, V_, tuple(W_))
 
 
@@ -485,4 +504,5 @@ def strata(tier):
         Stratum("promotion", "hyp", gen_promo(), n),
         Stratum("arithmetic", "hyp", gen_arith(), n),
         Stratum("length-normalized-angle", "hyp", gen_norm(), n),
+        Stratum("length-normalized-angle/after-setitem", "hyp", gen_norm(True), n // 3),
     ]
